@@ -35,6 +35,7 @@ pub fn pk_from_c4(p: &c4::Packet) -> Pk {
             retain: p.retain,
             alias: None,
             topic_empty: p.topic.is_empty(),
+            topic2: p.topic == "in/y",
         },
         c4::Packet::PubAck(a) => Pk::PubAck(a.pkid, 0),
         c4::Packet::PubRec(a) => Pk::PubRec(a.pkid, 0),
@@ -84,6 +85,7 @@ pub fn pk_from_broker(p: &bp::Packet) -> Pk {
                 retain: p.retain,
                 alias: props.as_ref().and_then(|x| x.topic_alias),
                 topic_empty: p.topic.is_empty(),
+                topic2: &p.topic[..] == b"in/y",
             }
         }
         bp::Packet::PubAck(a, _) => Pk::PubAck(a.pkid, if a.reason == bp::PubAckReason::Success { 0 } else { 0x80 }),
@@ -212,8 +214,8 @@ impl Proto for V4 {
                 if *code == 0 { c4::ConnectReturnCode::Success } else { c4::ConnectReturnCode::NotAuthorized },
                 *sp,
             )),
-            Pk::Publish { qos, pkid, tag, dup, retain, .. } => {
-                let mut p = c4::Publish::new("in/x", q(*qos), payload(*tag));
+            Pk::Publish { qos, pkid, tag, dup, retain, topic2, .. } => {
+                let mut p = c4::Publish::new(if *topic2 { "in/y" } else { "in/x" }, q(*qos), payload(*tag));
                 p.pkid = *pkid;
                 p.dup = *dup;
                 p.retain = *retain;
